@@ -218,6 +218,9 @@ def build(template_path, repo, variant="strict", inline=None):
                 opts.setdefault("cuts", []).append((mm.group(1), mm.group(2), bool(mm.group(3))))
             elif d2.startswith("sig "):
                 opts["sig"] = d2[len("sig "):].strip()
+            elif d2.startswith("when ") or d2.startswith("unless "):
+                kw, rest = d2.split(None, 1)
+                opts.setdefault("conds", []).append((kw, rest.strip().strip("`")))
             elif d2.startswith("tail "):
                 opts["tail"] = d2[len("tail "):].strip().strip("`")
             elif d2.startswith("derive "):
@@ -236,7 +239,13 @@ def build(template_path, repo, variant="strict", inline=None):
             elif d2 == "spec":
                 cur = opts["spec"]
             elif d2.startswith("loop "):
-                cur = opts["loops"].setdefault(int(d2.split()[1]), [])
+                # `loop k` or `loop k \`header text\``: with a text, the k-th loop's header must contain that token sequence,
+                # otherwise the invariants are NOT attached (lost anchor): a loop added or removed by a change shifts the
+                # ordinals, and invariants on the wrong loop would fail for no semantic reason
+                ml = re.match(r"loop\s+(\d+)(?:\s+`(.*)`)?\s*$", d2)
+                cur = opts["loops"].setdefault(int(ml.group(1)), [])
+                if ml.group(2):
+                    opts.setdefault("loop_heads", {})[int(ml.group(1))] = ml.group(2)
             elif d2.startswith("hint "):
                 m = _HINT_RE.match(d2)
                 if not m:
@@ -249,6 +258,27 @@ def build(template_path, repo, variant="strict", inline=None):
         path = os.path.join(repo, relfile)
         if not os.path.exists(path):
             raise LostAnchor("file %s not found" % relfile)
+        # `when` / `unless`: extract this item only if the enclosing function (the item itself for plain selectors) contains /
+        # does not contain the given token sequence: lets a unit carry contracts for alternative shapes of the same code (the
+        # pinned text and its repaired form), so that a regression is decided again instead of losing its anchors
+        if opts.get("conds"):
+            msel = re.match(r"(?:closure\s+(.*)#\d+|callarg\s+`.*`\s+in\s+(.*)#\d+(?:\s+arg\s+\d+)?|region\s+`.*`\s+\.\.\s+`.*`\s+in\s+(.*))$", selector)
+            host_sel = next((g for g in (msel.groups() if msel else ()) if g), selector).strip()
+            try:
+                host = find_item(path, host_sel)
+            except LostAnchor as e:
+                res.lost.append(str(e))
+                continue
+            hcode = [t.text for t in host.toks if t.kind not in ("ws", "lcomment", "bcomment")]
+            skip = False
+            for (kw, pat_) in opts["conds"]:
+                pt = [t.text for t in R.lex(pat_) if t.kind not in ("ws", "lcomment", "bcomment")]
+                found = any(hcode[q:q + len(pt)] == pt for q in range(len(hcode) - len(pt) + 1))
+                if (kw == "when" and not found) or (kw == "unless" and found):
+                    skip = True
+            if skip:
+                res.rewrites.append(("R18", "%s %s" % (relfile, selector), "skipped", "condition " + "; ".join("%s `%s`" % c for c in opts["conds"]) + " not met"))
+                continue
         mclo = re.match(r"closure\s+(.*)#(\d+)$", selector)
         marg = re.match(r"callarg\s+`(.*)`\s+in\s+(.*)#(\d+)(?:\s+arg\s+(\d+))?$", selector)
         mreg = re.match(r"region\s+`(.*)`\s+\.\.\s+`(.*)`\s+in\s+(.*)$", selector)
@@ -374,6 +404,15 @@ def build(template_path, repo, variant="strict", inline=None):
                 if kord < 1 or kord > len(loops):
                     res.lost.append("%s: loop %d not found (%d loops)" % (where, kord, len(loops)))
                     continue
+                want = opts.get("loop_heads", {}).get(kord)
+                if os.environ.get("VX_LOOP_HEADS"):
+                    print("LOOPHEAD %s | %d | %s" % (where, kord, " ".join(R.loop_header(body, loops[kord - 1]))))
+                if want:
+                    hd = R.loop_header(body, loops[kord - 1])
+                    wt = [t.text for t in R.lex(want) if t.kind not in ("ws", "lcomment", "bcomment")]
+                    if not any(hd[q:q + len(wt)] == wt for q in range(len(hd) - len(wt) + 1)):
+                        res.lost.append("%s: loop %d is `%s`, expected a header containing `%s`" % (where, kord, " ".join(hd)[:80], want))
+                        continue
                 ins[loops[kord - 1]] = content
             # render
             sig_lines = _toks_to_lines(sig, relfile, src_line_of)
